@@ -117,33 +117,75 @@ fn probe<const B: usize>(f: &dyn Fn(&[u8; B], &[u8; B]) -> u32) {
     while i < B { if i % 4 == 0 { h[i] = 0; g[i] = 0xff; } i += 1; }
     assert!(f(&h, &g) == 24 * (B as u32 / 4), "backend.probe.one_byte_lane_maximal");
 }
-// @ob id=dist_body.probe.sse2_32 props=C02,C07,C08,C17 rows=simd kind=HC fn=compare::dist_body::x86_sse2::distance_32 domain="extreme pair, equal pair, one symbolic byte pair at every position over a symbolic uniform background, one maximal byte lane" bounded="structured probe inputs (the full-domain proof is x86_sse2.*.modular + packed.eq_ref)" allow=simd
+// @ob id=dist_body.probe.sse2_32 props=C02,C07,C08,C17 rows=simd kind=HC fn=compare::dist_body::x86_sse2::distance_32 domain="extreme pair, equal pair, one symbolic byte pair at every position over a symbolic uniform background, one maximal byte lane" bounded="structured probe inputs (the full-domain proof is x86_sse2.*.modular + packed.eq_ref)"
 #[cfg(all(feature = "simd-per-arch", feature = "opt-simd-body-comparison"))]
 #[kani::proof]
+#[kani::stub(core::arch::x86_64::_mm_add_epi32, verif_support::x86::mm_add_epi32)]
+#[kani::stub(core::arch::x86_64::_mm_sub_epi32, verif_support::x86::mm_sub_epi32)]
+#[kani::stub(core::arch::x86_64::_mm_mullo_epi32, verif_support::x86::mm_mullo_epi32)]
+#[kani::stub(core::arch::x86_64::_mm_add_epi16, verif_support::x86::mm_add_epi16)]
+#[kani::stub(core::arch::x86_64::_mm256_add_epi32, verif_support::x86::mm256_add_epi32)]
+#[kani::stub(core::arch::x86_64::_mm256_sub_epi32, verif_support::x86::mm256_sub_epi32)]
+#[kani::stub(core::arch::x86_64::_mm256_mullo_epi32, verif_support::x86::mm256_mullo_epi32)]
 #[kani::unwind(66)]
 fn ob_probe_sse2_32() { probe::<32>(&|a, b| unsafe { super::x86_sse2::distance_32(a, b) }) }
-// @ob id=dist_body.probe.sse2_64 props=C02,C07,C08,C17 rows=simd kind=HC fn=compare::dist_body::x86_sse2::distance_64 domain="structured probe inputs" bounded="structured probe inputs" allow=simd
+// @ob id=dist_body.probe.sse2_64 props=C02,C07,C08,C17 rows=simd kind=HC fn=compare::dist_body::x86_sse2::distance_64 domain="structured probe inputs" bounded="structured probe inputs"
 #[cfg(all(feature = "simd-per-arch", feature = "opt-simd-body-comparison"))]
 #[kani::proof]
+#[kani::stub(core::arch::x86_64::_mm_add_epi32, verif_support::x86::mm_add_epi32)]
+#[kani::stub(core::arch::x86_64::_mm_sub_epi32, verif_support::x86::mm_sub_epi32)]
+#[kani::stub(core::arch::x86_64::_mm_mullo_epi32, verif_support::x86::mm_mullo_epi32)]
+#[kani::stub(core::arch::x86_64::_mm_add_epi16, verif_support::x86::mm_add_epi16)]
+#[kani::stub(core::arch::x86_64::_mm256_add_epi32, verif_support::x86::mm256_add_epi32)]
+#[kani::stub(core::arch::x86_64::_mm256_sub_epi32, verif_support::x86::mm256_sub_epi32)]
+#[kani::stub(core::arch::x86_64::_mm256_mullo_epi32, verif_support::x86::mm256_mullo_epi32)]
 #[kani::unwind(66)]
 fn ob_probe_sse2_64() { probe::<64>(&|a, b| unsafe { super::x86_sse2::distance_64(a, b) }) }
-// @ob id=dist_body.probe.sse4_1_32 props=C02,C07,C08,C17 rows=simd kind=HC fn=compare::dist_body::x86_sse4_1::distance_32 domain="structured probe inputs" bounded="structured probe inputs" allow=simd
+// @ob id=dist_body.probe.sse4_1_32 props=C02,C07,C08,C17 rows=simd kind=HC fn=compare::dist_body::x86_sse4_1::distance_32 domain="structured probe inputs" bounded="structured probe inputs"
 #[cfg(all(feature = "simd-per-arch", feature = "opt-simd-body-comparison"))]
 #[kani::proof]
+#[kani::stub(core::arch::x86_64::_mm_add_epi32, verif_support::x86::mm_add_epi32)]
+#[kani::stub(core::arch::x86_64::_mm_sub_epi32, verif_support::x86::mm_sub_epi32)]
+#[kani::stub(core::arch::x86_64::_mm_mullo_epi32, verif_support::x86::mm_mullo_epi32)]
+#[kani::stub(core::arch::x86_64::_mm_add_epi16, verif_support::x86::mm_add_epi16)]
+#[kani::stub(core::arch::x86_64::_mm256_add_epi32, verif_support::x86::mm256_add_epi32)]
+#[kani::stub(core::arch::x86_64::_mm256_sub_epi32, verif_support::x86::mm256_sub_epi32)]
+#[kani::stub(core::arch::x86_64::_mm256_mullo_epi32, verif_support::x86::mm256_mullo_epi32)]
 #[kani::unwind(66)]
 fn ob_probe_sse4_1_32() { probe::<32>(&|a, b| unsafe { super::x86_sse4_1::distance_32(a, b) }) }
-// @ob id=dist_body.probe.sse4_1_64 props=C02,C07,C08,C17 rows=simd kind=HC fn=compare::dist_body::x86_sse4_1::distance_64 domain="structured probe inputs" bounded="structured probe inputs" allow=simd
+// @ob id=dist_body.probe.sse4_1_64 props=C02,C07,C08,C17 rows=simd kind=HC fn=compare::dist_body::x86_sse4_1::distance_64 domain="structured probe inputs" bounded="structured probe inputs"
 #[cfg(all(feature = "simd-per-arch", feature = "opt-simd-body-comparison"))]
 #[kani::proof]
+#[kani::stub(core::arch::x86_64::_mm_add_epi32, verif_support::x86::mm_add_epi32)]
+#[kani::stub(core::arch::x86_64::_mm_sub_epi32, verif_support::x86::mm_sub_epi32)]
+#[kani::stub(core::arch::x86_64::_mm_mullo_epi32, verif_support::x86::mm_mullo_epi32)]
+#[kani::stub(core::arch::x86_64::_mm_add_epi16, verif_support::x86::mm_add_epi16)]
+#[kani::stub(core::arch::x86_64::_mm256_add_epi32, verif_support::x86::mm256_add_epi32)]
+#[kani::stub(core::arch::x86_64::_mm256_sub_epi32, verif_support::x86::mm256_sub_epi32)]
+#[kani::stub(core::arch::x86_64::_mm256_mullo_epi32, verif_support::x86::mm256_mullo_epi32)]
 #[kani::unwind(66)]
 fn ob_probe_sse4_1_64() { probe::<64>(&|a, b| unsafe { super::x86_sse4_1::distance_64(a, b) }) }
-// @ob id=dist_body.probe.avx2_32 props=C02,C07,C08,C17 rows=simd kind=HC fn=compare::dist_body::x86_avx2::distance_32 domain="structured probe inputs" bounded="structured probe inputs" allow=simd
+// @ob id=dist_body.probe.avx2_32 props=C02,C07,C08,C17 rows=simd kind=HC fn=compare::dist_body::x86_avx2::distance_32 domain="structured probe inputs" bounded="structured probe inputs"
 #[cfg(all(feature = "simd-per-arch", feature = "opt-simd-body-comparison"))]
 #[kani::proof]
+#[kani::stub(core::arch::x86_64::_mm_add_epi32, verif_support::x86::mm_add_epi32)]
+#[kani::stub(core::arch::x86_64::_mm_sub_epi32, verif_support::x86::mm_sub_epi32)]
+#[kani::stub(core::arch::x86_64::_mm_mullo_epi32, verif_support::x86::mm_mullo_epi32)]
+#[kani::stub(core::arch::x86_64::_mm_add_epi16, verif_support::x86::mm_add_epi16)]
+#[kani::stub(core::arch::x86_64::_mm256_add_epi32, verif_support::x86::mm256_add_epi32)]
+#[kani::stub(core::arch::x86_64::_mm256_sub_epi32, verif_support::x86::mm256_sub_epi32)]
+#[kani::stub(core::arch::x86_64::_mm256_mullo_epi32, verif_support::x86::mm256_mullo_epi32)]
 #[kani::unwind(66)]
 fn ob_probe_avx2_32() { probe::<32>(&|a, b| unsafe { super::x86_avx2::distance_32(a, b) }) }
-// @ob id=dist_body.probe.avx2_64 props=C02,C07,C08,C17 rows=simd kind=HC fn=compare::dist_body::x86_avx2::distance_64 domain="structured probe inputs" bounded="structured probe inputs" allow=simd
+// @ob id=dist_body.probe.avx2_64 props=C02,C07,C08,C17 rows=simd kind=HC fn=compare::dist_body::x86_avx2::distance_64 domain="structured probe inputs" bounded="structured probe inputs"
 #[cfg(all(feature = "simd-per-arch", feature = "opt-simd-body-comparison"))]
 #[kani::proof]
+#[kani::stub(core::arch::x86_64::_mm_add_epi32, verif_support::x86::mm_add_epi32)]
+#[kani::stub(core::arch::x86_64::_mm_sub_epi32, verif_support::x86::mm_sub_epi32)]
+#[kani::stub(core::arch::x86_64::_mm_mullo_epi32, verif_support::x86::mm_mullo_epi32)]
+#[kani::stub(core::arch::x86_64::_mm_add_epi16, verif_support::x86::mm_add_epi16)]
+#[kani::stub(core::arch::x86_64::_mm256_add_epi32, verif_support::x86::mm256_add_epi32)]
+#[kani::stub(core::arch::x86_64::_mm256_sub_epi32, verif_support::x86::mm256_sub_epi32)]
+#[kani::stub(core::arch::x86_64::_mm256_mullo_epi32, verif_support::x86::mm256_mullo_epi32)]
 #[kani::unwind(66)]
 fn ob_probe_avx2_64() { probe::<64>(&|a, b| unsafe { super::x86_avx2::distance_64(a, b) }) }
